@@ -293,6 +293,19 @@ fn verif_native_stack_gate_cli() {
             panic!("violation");
         }
     }
+    // wherever the command line ACCEPTS `-f stack` it takes effect: given before the subcommand it is either honoured (status 0, as
+    // after the subcommand) or a usage error (status 2) - never accepted and then ignored (status 1: "run with -f stack")
+    {
+        let asm = dir.join("g.asm");
+        std::fs::write(&asm, ".fill xD440\nhalt\n").unwrap();
+        evaluated += 1;
+        let (before, _) = run_lace(&["-f", "stack", "run", "-m", asm.to_str().unwrap()]).expect("lace binary");
+        let (bare, _) = run_lace(&["-f", "stack", "-m", asm.to_str().unwrap()]).expect("lace binary");
+        if !(before == 0 || before == 2) || bare != 0 {
+            verif_out(&format!("VERIF-COUNTEREXAMPLE name={} input=`lace -f stack run -m prog` / `lace -f stack -m prog` (prog = PUSH r1; HALT) detail=exit status {} / {}: the flag was accepted on the command line and then ignored (expected 0 or a usage error 2 / 0)", name, before, bare));
+            panic!("violation");
+        }
+    }
     // the flag changes nothing for programs that use none of the four mnemonics and never execute opcode 0xD:
     // same output and exit status with and without -f stack, same image
     let plain = [
@@ -571,6 +584,45 @@ fn verif_native_exit_statuses_cli() {
         let (code, _) = run_lace_stdin(&args, b"").expect("lace binary");
         if code != want {
             verif_out(&format!("VERIF-COUNTEREXAMPLE name={} input=program {:?} flags {:?} detail=exit status {}, documented {}", name, src, flags, code, want));
+            panic!("violation");
+        }
+    }
+    let _ = std::fs::remove_dir_all(&dir);
+    verif_out(&format!("VERIF-NATIVE name={} evaluated={} distinct={}", name, evaluated, evaluated));
+}
+
+/// C05 size extremes at the process level (rendering and memory are outside every contract): a lexer error, a parser error and
+/// an end-of-file error on a line of more than 64K characters; `.blkw xFFFF` on 4000 lines and a 70000-character `.stringz`
+/// under a 4 GB address-space limit: each is answered with an ordinary diagnostic (exit status 1) - no panic (101), no abort
+/// (134 / signal), within the time limit
+#[test]
+fn verif_native_size_extremes_cli() {
+    let name = "verif_native_size_extremes_cli";
+    let bin = match std::env::var("VERIF_LACE_BIN") { Ok(b) => b, Err(_) => { verif_out(&format!("VERIF-NATIVE name={} evaluated=0 distinct=0", name)); return; } };
+    let dir = std::env::temp_dir().join(format!("lace-verif-extremes-{}", std::process::id()));
+    std::fs::create_dir_all(&dir).unwrap();
+    let cases: Vec<(&str, String, i32)> = vec![
+        ("unknown token at column 65540", format!("halt{}@\n", " ".repeat(65536)), 1),
+        ("unknown token at column 70000 after a tab", format!("halt\t{}@\n", " ".repeat(70000)), 1),
+        ("end of file after a 70000-character comment", format!("halt\nlbl ;{}", "c".repeat(70000)), 1),
+        ("out-of-range literal at column 66000", format!("add r0, r0,{}#99\n", " ".repeat(66000)), 1),
+        (".blkw xFFFF on 4000 lines", ".blkw xFFFF\n".repeat(4000), 1),
+        (".blkw #65535 on 4000 lines", ".blkw #65535\n".repeat(4000), 1),
+        ("a 70000-character .stringz", format!(".stringz \"{}\"\n", "s".repeat(70000)), 1),
+        ("a long line without any error", format!("halt ;{}\n", "c".repeat(70000)), 0),
+    ];
+    let mut evaluated = 0u64;
+    for (what, src, want) in cases {
+        evaluated += 1;
+        let asm = dir.join("x.asm");
+        std::fs::write(&asm, &src).unwrap();
+        let cmd = format!("ulimit -v 4000000; exec timeout 60 '{}' check '{}'", bin, asm.to_str().unwrap());
+        let out = std::process::Command::new("sh").args(["-c", &cmd]).stdin(std::process::Stdio::null()).output().expect("sh");
+        let code = out.status.code().unwrap_or(-1);
+        if code != want {
+            let err = String::from_utf8_lossy(&out.stderr);
+            let line = err.lines().find(|l| l.contains("panicked") || l.contains("memory allocation")).unwrap_or("").to_string();
+            verif_out(&format!("VERIF-COUNTEREXAMPLE name={} input={} ({} bytes of source) detail=exit status {} of lace check (expected {}) {}", name, what, src.len(), code, want, line));
             panic!("violation");
         }
     }
